@@ -100,8 +100,14 @@ def de_class(kind, tok, has_le):
 def run(ctx):
     f = ctx.f
     # the decimal writer's scale / sign-byte / fit rules are necessary for decimals to round-trip (shared with C02)
-    from .c02 import decscale_rule
+    from .c02 import decscale_rule, freezemap_rule
     decscale_rule(ctx)
+    freezemap_rule(ctx)
+    # the reading primitives hand over exactly the bytes of the value (shared with C03 / C11)
+    from . import c11
+    c11.slice_rule(ctx)
+    c11.varint_rule(ctx)
+    c11.fixedbuf_rule(ctx)
     sm = ser_matrix(f)
     dm = de_matrix(f)
     ser_shapes = {k: set() for k in KINDS}
